@@ -85,6 +85,9 @@ func genConcTask(r *sim.Rng) ConcTask {
 	// reader task
 	c := &RCase{Src: genSrcPlan(r), RDict: 4096}
 	c.Reads = []int{sim.Pick(r, []int{1, 3, 7, 64, 500})}
+	if r.Bool() {
+		c.PostEOF = []int{1, 64, 7} // a caller that reads on after the end of the stream
+	}
 	if c.Src.Frag == "whole" {
 		c.Src.Frag = "seeded"
 	}
@@ -166,8 +169,47 @@ func runTask(t *ConcTask, yield func()) (digest string, detail string) {
 		fmt.Fprintf(h, "%d %d %v\n", c.Len, c.N, c.Err)
 	}
 	h.Write(res.Out)
+	for _, c := range res.Post {
+		fmt.Fprintf(h, "post-eof %d %d %v\n", c.Len, c.N, c.Err)
+	}
 	ok := bytes.Equal(res.Out, b.Content)
 	return fmt.Sprintf("%x", h.Sum(nil)[:12]), fmt.Sprintf("reader %s out=%d bytes final=%v content-ok=%v", b.Format, len(res.Out), res.Final, ok)
+}
+
+// soloFresh runs one task alone in a fresh process of this binary and returns
+// its digest: the reference for "the output is a function of configuration
+// and input" that no earlier instance in this process can have influenced.
+func soloFresh(t *ConcTask) (string, string) {
+	self, err := os.Executable()
+	if err != nil {
+		sim.Infra("cannot locate own binary: %v", err)
+	}
+	b, _ := json.Marshal(t)
+	cmd := exec.Command(self, "solotask")
+	cmd.Stdin = bytes.NewReader(b)
+	cmd.Env = append(os.Environ(), "VERIF_SHARD=", "VERIF_SHARD_OUT=")
+	out, err := cmd.Output()
+	if err != nil {
+		sim.Infra("fresh-process solo run failed: %v", err)
+	}
+	f := strings.SplitN(strings.TrimSpace(string(out)), "\t", 2)
+	if len(f) != 2 {
+		sim.Infra("fresh-process solo run printed %q", out)
+	}
+	return f[0], f[1]
+}
+
+func init() {
+	sim.Subcommands["solotask"] = func(args []string) int {
+		var t ConcTask
+		if err := json.NewDecoder(os.Stdin).Decode(&t); err != nil {
+			fmt.Fprintln(os.Stderr, err)
+			return 2
+		}
+		d, det := runTask(&t, nil)
+		fmt.Printf("%s\t%s\n", d, det)
+		return 0
+	}
 }
 
 type schedEvent struct {
@@ -291,6 +333,9 @@ func runConcCase(c *ConcCase, x *sim.Ctx) *sim.Violation {
 	x.Nontrivial(1)
 	switch c.Mode {
 	case "lockstep":
+		// the number of Ps the Go scheduler may use is part of the scenario
+		// (per-P caches such as sync.Pool behave differently with one P)
+		defer runtime.GOMAXPROCS(runtime.GOMAXPROCS([]int{1, 1, 4, 16}[c.SchedSeed%4]))
 		d, det, sched := runLockstep(c.Tasks, c.SchedSeed)
 		x.Step("schedule", int64(len(sched)))
 		x.Count("context-switches", int64(switches(sched)))
@@ -298,6 +343,20 @@ func runConcCase(c *ConcCase, x *sim.Ctx) *sim.Violation {
 		for i := range d {
 			if d[i] != solo[i] {
 				return sim.Viol("interference", taskKind(&c.Tasks[i]), "task %d under the lock-step schedule (%d steps, %d switches) differs from its solo run: %s vs solo %s", i, len(sched), switches(sched), det[i], soloDetail[i])
+			}
+		}
+		// The solo runs above share this process with one another: state a
+		// task leaves behind (a default mutated in place, a pooled buffer)
+		// would taint the later references. A third of the cases therefore
+		// also compare with each task run alone in a fresh process.
+		if c.SchedSeed%3 == 0 || hasViaVerify(c) {
+			x.Probe("fresh-process-references")
+			for i := range c.Tasks {
+				fd, fdet := soloFresh(&c.Tasks[i])
+				x.Eval(1)
+				if fd != solo[i] {
+					return sim.Viol("nondeterministic-output", taskKind(&c.Tasks[i])+":fresh-process", "task %d gives %s in a fresh process but %s alone in this process, after the other tasks' runs (state left behind by another instance)", i, fdet, soloDetail[i])
+				}
 			}
 		}
 	case "free":
@@ -321,6 +380,15 @@ func runConcCase(c *ConcCase, x *sim.Ctx) *sim.Violation {
 		sim.Infra("unknown mode %q", c.Mode)
 	}
 	return nil
+}
+
+func hasViaVerify(c *ConcCase) bool {
+	for _, t := range c.Tasks {
+		if w := t.W; w != nil && ((w.XZ != nil && w.XZ.ViaVerify) || (w.LZ != nil && w.LZ.ViaVerify) || (w.L2 != nil && w.L2.ViaVerify)) {
+			return true
+		}
+	}
+	return false
 }
 
 // runFree starts all tasks together with no harness synchronisation between
